@@ -124,12 +124,6 @@ y = loc[3, 2]
     ),)
 
     for source, expected_abstraction in test_cases:
-        # The rules leave files alone that do not use pandas
-        if performance_pandas.replace_loc_at_iloc_iat(source) != source:
-            return 1
-
-        source = "import pandas as pd\n" + source
-        expected_abstraction = "import pandas as pd\n" + expected_abstraction
         processed_content = performance_pandas.replace_loc_at_iloc_iat(source)
         if not testing_infra.check_fixes_equal(
             processed_content, expected_abstraction, clear_paranthesises=True
